@@ -344,9 +344,12 @@ def run_check(cfg, tier, seed):
         # 4. ops = corpus + generated
         ops_path = os.path.join(workdir, "ops.txt")
         gen_path = os.path.join(workdir, "gen.ops")
-        rc, out = sh([harness_bin(cfg), "gen", str(seed), str(n), gen_path, tier], timeout=3000)
+        rc, out = sh([harness_bin(cfg), "gen", str(seed), str(n), gen_path, tier], timeout=cfg.get("gen_timeout_s", 900))
         if rc != 0:
+            # rc 124 = the generator itself (which may execute the real code to label cases) did not return
             unshown.append("generator rc=%d %s" % (rc, out[-300:]))
+            if os.path.exists(gen_path):
+                os.remove(gen_path)
         with open(ops_path, "w") as f:
             cdir = os.path.join(VERIF, "corpus", pid)
             k = 0
